@@ -193,6 +193,20 @@ Proof.
   rewrite E. reflexivity.
 Qed.
 
+(* ---- address families never cross: an IPv6 peer (whatever IPv4 address its low bits spell, mapped or
+   compatible) is matched by IPv6 networks only, and an IPv4 peer by IPv4 networks only *)
+Theorem other_family_never_matches a p peer : same_family a peer = false -> contains (a, p) peer = false.
+Proof. intros H. unfold contains. rewrite H. reflexivity. Qed.
+
+Theorem only_other_family_listed_forbidden nets peer target render_out :
+  forallb (fun n => negb (same_family (fst n) peer)) nets = true ->
+  respond (allowed (Some nets) peer) target render_out = (403, []).
+Proof.
+  intros H. apply outside_all_nets_forbidden.
+  rewrite forallb_forall in *. intros [a p] Hin. specialize (H _ Hin). cbn [fst] in H.
+  apply negb_true_iff in H. rewrite (other_family_never_matches a p peer H). reflexivity.
+Qed.
+
 Theorem inside_any_net_served nets n peer target render_out :
   In n nets -> contains n peer = true ->
   respond (allowed (Some nets) peer) target render_out =
